@@ -11,7 +11,7 @@ out = ("### 0.8 False-alarm probe: behaviour-preserving refactors (`seeded/benig
        "Four sub-agents (told only that the patches test my checks for false alarms, given a scratch worktree and a list of files, nothing from `/verif`) each wrote six "
        "behaviour-preserving refactors — renamed locals/parameters/receivers, reordered independent statements, extracted or inlined helpers, rewritten control flow, "
        "re-flowed/aliased SQL, functions moved to new files, hoisted constants, changed log and error texts — and verified that the package tests pass; "
-       "`seeded/benign/B1…B7.diff` are seven of my own. `lib/benign_run.py` applies each in a scratch worktree and runs the quick checks of every property anchored in the touched files; "
+       "`seeded/benign/B1…B8.diff` are eight of my own (B8: the registry mutex split into stripes chosen by the hash of the key, the correct counterpart of seed C20-e). `lib/benign_run.py` applies each in a scratch worktree and runs the quick checks of every property anchored in the touched files; "
        "each must exit 0. First run: 5 of 24 raised an alarm, all of them broken translator obligations or the signing-site scan (chain/p2 SQL re-flow, chain/p3 extracted helpers, "
        "chain/p5 functions moved to a new file, chain/p6 SQL hoisted into constants, rhp/p3 signing call moved into a helper); none came from a correspondence run. "
        "The translators were generalised (whole-package lookup, package-level constants, helper inlining with statement-parameter binding, SQL normalisation, parameter types instead of names, "
